@@ -62,6 +62,42 @@ class VLoop(asyncio.BaseEventLoop):
         live = [h._when for h in self._scheduled if not h._cancelled]
         return min(live) if live else None
 
+    def describe(self, owners=None):
+        """a canonical description of what the loop holds, for state keys: the ready queue in order and the live timers by remaining
+        delay - each handle as (callback name, owner), the owner being the label (in `owners`: {task: label}) of the task the callback
+        belongs to or will wake.  Two loop states with equal descriptions have the same futures."""
+        owners = owners or {}
+
+        def owner_of(obj, depth=0):
+            if obj in owners:
+                return owners[obj]
+            if isinstance(obj, asyncio.Future) and depth < 3:
+                for cb in (getattr(obj, "_callbacks", None) or ()):
+                    fn = cb[0] if isinstance(cb, tuple) else cb
+                    o = owner_of(getattr(fn, "__self__", None), depth + 1)
+                    if o is not None:
+                        return o
+            return None
+
+        def one(h):
+            cb = h._callback
+            name = getattr(cb, "__qualname__", None) or getattr(cb, "__name__", None) or type(cb).__name__
+            own = None
+            try:
+                own = owner_of(getattr(cb, "__self__", None))
+                if own is None:
+                    for a in (h._args or ()):
+                        own = owner_of(a)
+                        if own is not None:
+                            break
+            except TypeError:  # unhashable callback owner
+                own = None
+            return (name, own)
+
+        ready = tuple(one(h) for h in self._ready if not h._cancelled)
+        timers = tuple(sorted((round(h._when - self._vt, 6), one(h)) for h in self._scheduled if not h._cancelled))
+        return ready, timers
+
     def step(self):
         """run exactly one ready callback (cancelled handles are skipped, as the real loop does); False if none"""
         while self._ready:
